@@ -19,6 +19,7 @@ import sys
 from .common import clause, Fail, Skip, variables_of
 from .. import REPO
 from ..repo import import_qubovert, build_canneal
+from ._c17_driver import run_driver
 from .c11 import TYPES, SPIN_FN, MATRIX, FNS, SCHEDULE_KWS, _special_models, _random_models, _vars_for, _kw
 
 _DRIVER = os.path.join(os.path.dirname(os.path.abspath(__file__)), "_c17_driver.py")
@@ -89,17 +90,7 @@ def _classify(stderr, returncode, timed_out):
 
 
 def _run_driver(mode, so, payload, wrapper=(), env_extra=None):
-    env = dict(os.environ)
-    env.update({"PYTHONDONTWRITEBYTECODE": "1", "PYTHONMALLOC": "malloc"})
-    env.update(env_extra or {})
-    cmd = list(wrapper) + [sys.executable, _DRIVER, mode, so] + ([REPO] if mode == "api" else [])
-    try:
-        r = subprocess.run(cmd, input=repr(payload), capture_output=True, text=True, env=env, timeout=_TIMEOUT)
-        return r.returncode, r.stdout, r.stderr, False
-    except subprocess.TimeoutExpired as e:
-        out = e.stdout.decode() if isinstance(e.stdout, bytes) else (e.stdout or "")
-        err = e.stderr.decode() if isinstance(e.stderr, bytes) else (e.stderr or "")
-        return None, out, err, True
+    return run_driver(mode, so, payload, repo=REPO, wrapper=wrapper, env_extra=env_extra, timeout=_TIMEOUT)
 
 
 def _asan_env():
